@@ -15,7 +15,13 @@ RFC 3339 timestamps produced from the grammars must be accepted.
 Vocabulary sweep: "all format names x all values" includes the names some vocabulary gives a meaning to (the JSON Schema drafts, the
 OpenAPI format registry, every short string literal of the library's own source) and values at the magnitudes fixed-width
 readings care about, checked through elements of the value's own type too (`{"type": "integer", "format": ...}`): for each name, in
-each registration state (as the process has it / accept-all checker / reject-all checker), the same oracle."""
+each registration state (as the process has it / accept-all checker / reject-all checker), the same oracle.
+Ambient warning filters: what the process does with a warning is a condition the statement does not mention, so it holds under every
+one of them: histories carry ("ambient", id) steps that change the filters the following checks are made under (everything escalated
+to an exception as with `-W error` / pytest's `filterwarnings = error`, only RuntimeWarning / only the library's modules escalated,
+other categories escalated, ignored, the de-duplicating default / once / module actions).  Verdicts of registered names and of
+non-strings are the same under all of them; an unregistered name is never a rejection: where the filters turn its warning into an
+exception that very warning comes out of the call, where they record it it is recorded, where they drop it the value is accepted."""
 import ast
 import os
 import random
@@ -37,6 +43,7 @@ ASSUMPTIONS = ["checkers are total predicates returning bool (a checker that rai
 N_HIST = {"quick": 400, "thorough": 15000}
 N_OVERLAP = {"quick": 150, "thorough": 4000}
 SWEEP_HARVESTED = {"quick": 40, "thorough": None}      # how many of the library's own string literals the sweep takes as names (None: all)
+N_AMBIENT = {"quick": 200, "thorough": 6000}
 SWEEP_ROUNDS = {"quick": 1, "thorough": 8}              # per name and registration state: how many times every stratum of values is visited
 
 NAMES = ["custom", "Custom", "CUSTOM", "email", "e-mail", "", " ", "uuid", "UUID", "Uuid", "date-time", "Date-Time", "date_time", "datetime",
@@ -108,14 +115,40 @@ class Flip:
         return self.n % 2 == 1
 
 
-def observe(el, value):
+# ---- what the process does with warnings while a check is made.  id -> (class, filters installed in this order, the last one
+# ---- having precedence).  Classes: "recorded" = the unknown-format warning reaches whoever listens; "escalated" = the filters turn
+# ---- it into an exception; "silent" = the filters may drop it (ignore, or the actions that show a warning once per place).
+LIBRARY_MODULES = r"statham\."
+AMBIENTS = {
+    "always": ("recorded", [("always", {})]),
+    "error": ("escalated", [("error", {})]),
+    "error-runtime": ("escalated", [("always", {}), ("error", {"category": RuntimeWarning})]),
+    "error-warning-base": ("escalated", [("ignore", {}), ("error", {"category": Warning})]),
+    "error-library-modules": ("escalated", [("always", {}), ("error", {"module": LIBRARY_MODULES})]),
+    "error-other-categories": ("recorded", [("always", {}), ("error", {"category": DeprecationWarning}), ("error", {"category": UserWarning}),
+                                            ("error", {"category": ResourceWarning})]),
+    "error-other-modules": ("recorded", [("always", {}), ("error", {"module": r"harness\.|__main__"})]),
+    "error-overridden": ("recorded", [("error", {}), ("always", {"category": RuntimeWarning})]),
+    "ignore": ("silent", [("ignore", {})]),
+    "ignore-runtime": ("silent", [("error", {}), ("ignore", {"category": RuntimeWarning})]),
+    "default": ("silent", [("default", {})]),
+    "once": ("silent", [("once", {})]),
+    "module": ("silent", [("module", {})]),
+}
+AMBIENT_IDS = sorted(AMBIENTS)
+
+
+def observe(el, value, ambient="always"):
     with warnings.catch_warnings(record=True) as caught:
-        warnings.simplefilter("always")
+        for action, kwargs in AMBIENTS[ambient][1]:
+            warnings.filterwarnings(action, **kwargs)
         try:
             el(value)
             res = "accept"
         except ValidationError:
             res = "reject"
+        except RuntimeWarning as exc:      # the unknown-format warning itself, as an escalating filter delivers it
+            res = "warn-raised" if "No validator found for format string" in str(exc) else "exc:RuntimeWarning"
         except Exception as exc:  # noqa: BLE001
             res = "exc:" + type(exc).__name__
     warned = [w for w in caught if issubclass(w.category, RuntimeWarning) and "No validator found for format string" in str(w.message)]
@@ -140,6 +173,9 @@ def make_element(kind, name):
     if kind == "parse-items":               # the format keyword on the items of an array; the value is checked as its only item
         arr = parse_element({"type": "array", "items": dict(fmt)})
         return lambda value: arr([value])
+    if kind == "parse-property":            # the format keyword on a property of an object; the value is checked as that property
+        obj = parse_element({"type": "object", "title": "Obj", "properties": {"member": dict(fmt)}})
+        return lambda value: obj({"member": value})
     return parse_element(fmt)
 
 
@@ -157,23 +193,32 @@ def kinds_admitting(value):
     return kinds + ["String", "parse-string"] if own == "string" else kinds
 
 
-def judge(kind, name, value, res, calls, current, saved):
+UNREGISTERED_WANTS = {"recorded": ("accept-warn",), "escalated": ("warn-raised",), "silent": ("accept", "accept-warn")}
+
+
+def judge(kind, name, value, res, calls, current, saved, ambient="always"):
     """The oracle for ONE check, whatever else is going on around it (other checks in flight in this or another thread
     included - the statement makes no exception for them).  `calls`: the (ident, value, result) calls to logged checkers
     made directly by this check; `current`: name -> (ident, fn | None for a built-in entry) as the history has left it.
+    `ambient`: the warning filters the check was made under - they decide how the warning of an unregistered name shows, and
+    nothing else.
     Returns (category, [what failed])."""
     whats = []
+    under = "" if ambient == "always" else f" [warning filters: {ambient}]"
     if not isinstance(value, str):
         # an element typed as a string rejects it on account of the type; every other kind is made so that its type admits
         # the value: a rejection that disappears when the format keyword is taken away is a rejection on account of the format
         if kind not in ("String", "parse-string") and res != "accept" and (kind in ("Element", "parse-any") or observe(make_element(kind, None), value) == "accept"):
-            whats.append(f"non-string {value!r} under format {name!r} ({kind}): {res}")
+            whats.append(f"non-string {value!r} under format {name!r} ({kind}): {res}{under}")
         if calls:
             whats.append(f"non-string {value!r} was handed to a checker")
         return "non-string", whats
     if name not in current:
-        if res != "accept-warn":
-            whats.append(f"unregistered format {name!r} on {value!r}: {res} (expected acceptance with a warning)")
+        wants = UNREGISTERED_WANTS[AMBIENTS[ambient][0]]
+        if res not in wants:
+            expected = {"recorded": "acceptance with a warning", "escalated": "the warning itself, raised by the filters, and no rejection",
+                        "silent": "acceptance"}[AMBIENTS[ambient][0]]
+            whats.append(f"unregistered format {name!r} on {value!r}: {res} (expected {expected}){under}")
         if calls:
             whats.append(f"unregistered format {name!r} consulted checker {calls[0][0]}")
         return "unregistered", whats
@@ -181,19 +226,20 @@ def judge(kind, name, value, res, calls, current, saved):
     if fn is None:      # built-in entry: decided by the library definition
         want = "accept" if {"uuid": lib_uuid, "date-time": lib_datetime}.get(name, saved.get(name))(value) else "reject"
         if res != want:
-            whats.append(f"built-in {name!r} on {value!r}: {res}, the library definition says {want}")
+            whats.append(f"built-in {name!r} on {value!r}: {res}, the library definition says {want}{under}")
         return "registered-builtin", whats
     if len(calls) != 1 or calls[0][0] != ident or calls[0][1] != value:
         whats.append(f"format {name!r} on {value!r}: expected exactly one call to the current checker {ident}, saw {[(c[0], c[1]) for c in calls]}")
         return "registered-custom", whats
     want = "accept" if calls[0][2] else "reject"
     if res != want:
-        whats.append(f"checker {ident} returned {calls[0][2]} for {value!r} but the verdict is {res}")
+        whats.append(f"checker {ident} returned {calls[0][2]} for {value!r} but the verdict is {res}{under}")
     return "registered-custom", whats
 
 
 def run_history(drv, steps, out, stats, label):
-    """steps: list of ("register", name, pred_id | "flip") / ("check", kind, name, value)."""
+    """steps: list of ("register", name, pred_id | "flip") / ("check", kind, name, value) / ("ambient", id): the checks that
+    follow are made under the warning filters AMBIENTS[id] (until the next such step; "always" to begin with)."""
     reg = format_checker._callable_register  # pylint: disable=protected-access
     saved = dict(reg)
     log = []
@@ -212,8 +258,13 @@ def run_history(drv, steps, out, stats, label):
         for pid, fn in PREDICATES.items():
             checkers[pid] = [[s, bool(fn(s))] for s in sorted(table_strings)]
         model_ops, real_outs, pure = [], [], True
+        ambient = "always"
         case = {"label": label, "steps": [list(s) for s in steps]}
         for idx, st in enumerate(steps):
+            if st[0] == "ambient":
+                ambient = st[1]
+                stats["ambient-changes"] = stats.get("ambient-changes", 0) + 1
+                continue
             if st[0] == "register":
                 _, name, pid = st
                 if pid == "flip":
@@ -231,16 +282,22 @@ def run_history(drv, steps, out, stats, label):
             _, kind, name, value = st
             el = make_element(kind, name)
             before = len(log)
-            res = observe(el, value)
+            res = observe(el, value, ambient)
             calls = log[before:]
-            real_outs.append(res)
+            # the model knows one way a warning shows (it is there or not): where the filters raise it, that is "there";
+            # where they may drop it the streams are not comparable
+            real_outs.append("accept-warn" if res == "warn-raised" else res)
+            pure = pure and AMBIENTS[ambient][0] != "silent"
             model_ops.append({"check": name, "value": core.enc_val(value)})
-            nontrivial = isinstance(value, str) and name in current and current[name][1] is not None
+            nontrivial = isinstance(value, str) and (ambient != "always" or (name in current and current[name][1] is not None))
             out.note_case({"step": idx, **case}, nontrivial)
             stats[res] = stats.get(res, 0) + 1
             # --- the oracle
-            cat, whats = judge(kind, name, value, res, calls, current, saved)
+            cat, whats = judge(kind, name, value, res, calls, current, saved, ambient)
             stats[cat] = stats.get(cat, 0) + 1
+            if ambient != "always":
+                for key in ("ambient-" + ambient, f"ambient-{AMBIENTS[ambient][0]}-{cat}", f"ambient-{AMBIENTS[ambient][0]}-{res}"):
+                    stats[key] = stats.get(key, 0) + 1
             for what in whats:
                 out.failures.append({"case": case, "at_step": idx, "what": what, "finding": None})
         # --- the model, on histories with pure checkers only
@@ -558,6 +615,43 @@ def random_history(rng, n_steps):
     return steps
 
 
+def random_ambient_history(rng, n_steps):
+    """A history like `random_history` whose checks are made under changing warning filters, through every kind of element
+    (array items and object properties included: the warning then travels through the enclosing element's validation)."""
+    names = rng.sample(NAMES + STANDARD_FORMATS, rng.randint(2, 5))
+    steps = [("ambient", rng.choice(AMBIENT_IDS))]
+    for _ in range(n_steps):
+        r = rng.random()
+        if r < 0.12:
+            steps.append(("ambient", rng.choice(AMBIENT_IDS)))
+        elif r < 0.3:
+            steps.append(("register", rng.choice(names), rng.choice(list(PREDICATES) + (["flip"] if rng.random() < 0.2 else []))))
+        else:
+            value = rng.choice(STRINGS + SWEEP_STRINGS) if rng.random() < 0.8 else rng.choice(NON_STRINGS)
+            name = rng.choice(names) if rng.random() < 0.8 else rng.choice(NAMES + STANDARD_FORMATS)
+            steps.append(("check", rng.choice(kinds_admitting(value) + ["parse-property"]), name, value))
+    return steps
+
+
+AMBIENT_FIXED = [
+    # never registered, every escalating filter, every kind of element; then registered, then under the ordinary filters again
+    [step for amb in ("error", "error-runtime", "error-warning-base", "error-library-modules")
+     for step in [("ambient", amb), ("check", "String", "never-registered", "hello"), ("check", "Element", "never-registered", ""),
+                  ("check", "parse-items", "never-registered", "hello"), ("check", "parse-property", "never-registered", "hello"),
+                  ("check", "Element", "never-registered", 1), ("check", "String", "uuid", "not-a-uuid"),
+                  ("check", "String", "uuid", "00000000-0000-0000-0000-000000000000")]]
+    + [("register", "never-registered", "no"), ("check", "String", "never-registered", "hello"), ("register", "never-registered", "yes"),
+       ("check", "String", "never-registered", "hello"), ("ambient", "always"), ("check", "String", "still-not-registered", "hello")],
+    # the same place warns again and again under the filters that show a warning once
+    [step for amb in ("once", "default", "module", "ignore", "ignore-runtime", "always", "error", "once")
+     for step in [("ambient", amb), ("check", "String", "email", "abc"), ("check", "String", "email", "abc"), ("check", "parse-any", "uri", "abc")]],
+    # filters that escalate something else
+    [step for amb in ("error-other-categories", "error-other-modules", "error-overridden")
+     for step in [("ambient", amb), ("check", "String", "email", "abc"), ("check", "parse-property", "email", "abc"), ("register", "email", "short"),
+                  ("check", "String", "email", "abc"), ("check", "String", "email", "a"), ("check", "String", "ipv4", "a")]],
+]
+
+
 # ---- format names that some vocabulary gives a meaning to, and values at the magnitudes such meanings care about.  The statement
 # ---- quantifies over ALL format names and ALL values: whatever a name means elsewhere, here it means "ask the register".
 
@@ -745,7 +839,11 @@ def run(ctx, scale=1.0):
                 "state: 1-2 values of every stratum of non-strings (integers within 32 bits / within 64 bits / beyond, on both sides of the 8..128-bit "
                 "boundaries; floats within / beyond single precision up to the double limits; booleans and null; containers) and 2 strings, through untyped elements, array items, and parsed schemas typed with the value's own "
                 "type alone / with null / with another type (a rejection of a non-string counts when the same element without its format "
-                "accepts the value); distinct by SHA-256")
+                "accepts the value); plus histories of 6-24 steps whose checks are made under changing warning filters (12% of the steps install one "
+                f"of {len(AMBIENTS)} filter sets: everything / RuntimeWarning / Warning / the library's modules escalated to exceptions, other categories or "
+                "modules escalated, an escalation overridden, ignored, default / once / module), over the names above and the standard ones, through every "
+                "kind of element including array items and object properties; there non-trivial = a string checked under filters other than "
+                "'always'; distinct by SHA-256")
     stats = {}
     drv = core.Driver()
     try:
@@ -775,6 +873,9 @@ def run(ctx, scale=1.0):
              ("check", "String", "uuid", "not-a-uuid")],
             [("check", "String", "uuid", "not-a-uuid"), ("register", "uuid", "yes"), ("check", "String", "other", "x"), ("check", "String", "uuid", "not-a-uuid")],
             [("register", "custom", "no"), ("check", "String", "custom", "abc"), ("check", "String", "uuid", "00000000-0000-0000-0000-000000000000")],
+            # the first look-up the process ever makes happens under escalating filters
+            [("ambient", "error"), ("check", "String", "never-registered", "x"), ("check", "String", "uuid", "not-a-uuid"), ("ambient", "always"),
+             ("check", "String", "never-registered", "x"), ("ambient", "once"), ("check", "parse-property", "never-registered", "x")],
         ]
         for k, steps in enumerate(fresh):
             fresh_process_history(steps, out, stats, f"fresh-{k}")
@@ -787,6 +888,12 @@ def run(ctx, scale=1.0):
             run_overlap_history(steps, out, stats, f"overlap-fixed-{k}")
         for k in range(int(N_OVERLAP[ctx["tier"]] * scale)):
             run_overlap_history(random_overlap_history(rng, rng.randint(3, 14)), out, stats, f"overlap-random-{k}")
+        # the same histories under every way the process may treat warnings
+        for k, steps in enumerate(AMBIENT_FIXED):
+            run_history(drv, steps, out, stats, f"ambient-fixed-{k}")
+        for k in range(int(N_AMBIENT[ctx["tier"]] * scale)):
+            run_history(drv, random_ambient_history(rng, rng.randint(6, 24)), out, stats, f"ambient-random-{k}")
+            stats["ambient-histories"] = stats.get("ambient-histories", 0) + 1
         # every name some vocabulary gives a meaning to, through its registration states, on values at the magnitude boundaries
         run_vocabulary_sweep(drv, rng, out, stats, int(SWEEP_HARVESTED[ctx["tier"]] * scale) if SWEEP_HARVESTED[ctx["tier"]] else None,
                              SWEEP_ROUNDS[ctx["tier"]])
